@@ -423,9 +423,8 @@ def run_generated(acc, spec, only=None):
 
     case = {"gen": spec}
     if any(G.float_inverse_overshoots_maximum(a, d) for m in spec["masters"] for a, d in zip(spec["axes"], m["loc"])):
-        # known finding C10-F1 (reported): a master exactly at the axis maximum is rejected as out-of-range
-        acc.exclude("finding-F1:master-at-axis-maximum-whose-map_backward-overshoots-by-one-ulp")
-        return
+        # former finding C10-F1 (repaired: map_backward is exact at the map points): such masters are built like any other
+        acc.label("gen:master-on-an-extreme-whose-naive-inverse-overshoots")
     exp = G.expand(spec)
     nm = len(spec["masters"])
     fonts, datas, plans = [], [], []
